@@ -66,6 +66,9 @@ type recorded struct {
 	called             bool
 	locked             types.Currency
 	clearing, contract contracts.Usage
+	// the signed revisions handed to the contract manager: the new contract's
+	// initial revision and (renewals) the clearing revision of the old one
+	newRev, clearRev *types.FileContractRevision
 }
 
 type stubContracts struct {
@@ -81,16 +84,16 @@ func (c *stubContracts) Lock(context.Context, types.FileContractID) (contracts.S
 	return c.existing, nil
 }
 func (c *stubContracts) Unlock(types.FileContractID) {}
-func (c *stubContracts) AddContract(_ contracts.SignedRevision, _ []types.Transaction, locked types.Currency, usage contracts.Usage) error {
+func (c *stubContracts) AddContract(rev contracts.SignedRevision, _ []types.Transaction, locked types.Currency, usage contracts.Usage) error {
 	c.mu.Lock()
 	defer c.mu.Unlock()
-	c.rec = recorded{called: true, locked: locked, contract: usage}
+	c.rec = recorded{called: true, locked: locked, contract: usage, newRev: &rev.Revision}
 	return nil
 }
-func (c *stubContracts) RenewContract(_, _ contracts.SignedRevision, _ []types.Transaction, locked types.Currency, clearingUsage, renewalUsage contracts.Usage) error {
+func (c *stubContracts) RenewContract(renewal, clearing contracts.SignedRevision, _ []types.Transaction, locked types.Currency, clearingUsage, renewalUsage contracts.Usage) error {
 	c.mu.Lock()
 	defer c.mu.Unlock()
-	c.rec = recorded{called: true, locked: locked, clearing: clearingUsage, contract: renewalUsage}
+	c.rec = recorded{called: true, locked: locked, clearing: clearingUsage, contract: renewalUsage, newRev: &renewal.Revision, clearRev: &clearing.Revision}
 	return nil
 }
 func (c *stubContracts) ReviseContract(types.FileContractID) (*contracts.ContractUpdater, error) {
@@ -112,8 +115,15 @@ func (s stubSettings) RHP3PriceTable() (rhp3.HostPriceTable, error) {
 }
 
 func (r recorded) obs() string {
-	return fmt.Sprintf("rec=[%s,%s,%s,%s,%s]", fmtCur(r.locked), fmtCur(r.contract.RPCRevenue), fmtCur(r.contract.StorageRevenue),
+	s := fmt.Sprintf("rec=[%s,%s,%s,%s,%s]", fmtCur(r.locked), fmtCur(r.contract.RPCRevenue), fmtCur(r.contract.StorageRevenue),
 		fmtCur(r.contract.RiskedCollateral), fmtCur(r.clearing.RPCRevenue))
+	if r.newRev != nil {
+		s += " " + fromRevision(*r.newRev).enc("n")
+	}
+	if r.clearRev != nil {
+		s += " " + fromRevision(*r.clearRev).enc("x")
+	}
+	return s
 }
 
 // outcome combines what the host goroutine and the stub saw.
@@ -267,7 +277,7 @@ func serveRHP2(s st, h, rh uint64, locked contracts.SignedRevision, renter func(
 	return res, rec, err
 }
 
-func doRPCForm2(tr *vhlib.Trace, f rv, rk int, h, rh uint64, s st) {
+func doRPCForm2(tr *vhlib.Trace, f rv, rk int, h, rh uint64, s st, bs int) {
 	renterKey := renterKeys[rk]
 	res, rec, err := serveRHP2(s, h, rh, contracts.SignedRevision{}, func(t *rhp2.Transport) error {
 		txn := types.Transaction{FileContracts: []types.FileContract{f.contract()}}
@@ -282,7 +292,7 @@ func doRPCForm2(tr *vhlib.Trace, f rv, rk int, h, rh uint64, s st) {
 		txn.SiacoinInputs = append(txn.SiacoinInputs, resp.Inputs...)
 		txn.SiacoinOutputs = append(txn.SiacoinOutputs, resp.Outputs...)
 		init := rhp.InitialRevision(txn, hostKey.PublicKey().UnlockKey(), renterKey.PublicKey().UnlockKey())
-		sig := renterKey.SignHash(rhp.HashRevision(init))
+		sig := signMaybe(renterKey, rhp.HashRevision(init), bs == 2)
 		sigs := &rhp2.RPCFormContractSignatures{RevisionSignature: types.TransactionSignature{
 			ParentID: types.Hash256(init.ParentID), CoveredFields: types.CoveredFields{FileContractRevisions: []uint64{0}}, Signature: sig[:]}}
 		if err := t.WriteResponse(sigs); err != nil {
@@ -295,7 +305,15 @@ func doRPCForm2(tr *vhlib.Trace, f rv, rk int, h, rh uint64, s st) {
 	if res == "accept" {
 		extra = rec.obs()
 	}
-	emit(tr, "rpcform2", fmt.Sprintf("%s rk=%d h=%d rh=%d %s", f.enc("f"), rk, h, rh, s.enc()), res, extra, err)
+	emit(tr, "rpcform2", fmt.Sprintf("%s rk=%d h=%d rh=%d bs=%d %s", f.enc("f"), rk, h, rh, bs, s.enc()), res, extra, err)
+}
+
+// signMaybe signs h, or (bad) something else: the renter's signature then does not verify.
+func signMaybe(k types.PrivateKey, h types.Hash256, bad bool) types.Signature {
+	if bad {
+		h[5] ^= 0x20
+	}
+	return k.SignHash(h)
 }
 
 // renterKeyOf returns the private key matching UnlockConditions.PublicKeys[0] of ucOf(id).
@@ -306,7 +324,7 @@ func renterKeyOf(uc int) types.PrivateKey {
 	return renterKeys[0]
 }
 
-func doRPCRenew2(tr *vhlib.Trace, e, f rv, fv []types.Currency, rk int, h, rh uint64, s st) {
+func doRPCRenew2(tr *vhlib.Trace, e, f rv, fv []types.Currency, rk int, h, rh uint64, s st, bs int) {
 	renterKey := renterKeys[rk]
 	existing := e.revision()
 	locked := contracts.SignedRevision{Revision: existing}
@@ -328,11 +346,11 @@ func doRPCRenew2(tr *vhlib.Trace, e, f rv, fv []types.Currency, rk int, h, rh ui
 			return err
 		}
 		init := rhp.InitialRevision(txn, hostKey.PublicKey().UnlockKey(), renterKey.PublicKey().UnlockKey())
-		sig := renterKey.SignHash(rhp.HashRevision(init))
+		sig := signMaybe(renterKey, rhp.HashRevision(init), bs == 2)
 		sigs := &rhp2.RPCRenewAndClearContractSignatures{
 			RevisionSignature: types.TransactionSignature{ParentID: types.Hash256(init.ParentID),
 				CoveredFields: types.CoveredFields{FileContractRevisions: []uint64{0}}, Signature: sig[:]},
-			FinalRevisionSignature: renterKeyOf(e.UC).SignHash(rhp.HashRevision(clearing)),
+			FinalRevisionSignature: signMaybe(renterKeyOf(e.UC), rhp.HashRevision(clearing), bs == 1),
 		}
 		if err := t.WriteResponse(sigs); err != nil {
 			return err
@@ -344,12 +362,12 @@ func doRPCRenew2(tr *vhlib.Trace, e, f rv, fv []types.Currency, rk int, h, rh ui
 	if res == "accept" {
 		extra = rec.obs()
 	}
-	emit(tr, "rpcrenew2", fmt.Sprintf("%s %s fv=%s rk=%d h=%d rh=%d %s", e.enc("e"), f.enc("f"), fmtCurs(fv), rk, h, rh, s.enc()), res, extra, err)
+	emit(tr, "rpcrenew2", fmt.Sprintf("%s %s fv=%s rk=%d h=%d rh=%d bs=%d %s", e.enc("e"), f.enc("f"), fmtCurs(fv), rk, h, rh, bs, s.enc()), res, extra, err)
 }
 
 // ---- RHP3 -------------------------------------------------------------------
 
-func doRPCRenew3(tr *vhlib.Trace, e, k, f rv, rk int, h, rh uint64, s st) {
+func doRPCRenew3(tr *vhlib.Trace, e, k, f rv, rk int, h, rh uint64, s st, bs int) {
 	renterKey := renterKeys[rk]
 	existing := contracts.SignedRevision{Revision: e.revision()}
 	cs := &stubContracts{existing: existing}
@@ -391,7 +409,7 @@ func doRPCRenew3(tr *vhlib.Trace, e, k, f rv, rk int, h, rh uint64, s st) {
 		txn := types.Transaction{FileContractRevisions: []types.FileContractRevision{clearing}, FileContracts: []types.FileContract{renewal}}
 		finalHash := rhp3host.VerifHashFinalRevision(clearing, renewal)
 		req := &rhp3.RPCRenewContractRequest{TransactionSet: []types.Transaction{txn}, RenterKey: renterKey.PublicKey().UnlockKey(),
-			FinalRevisionSignature: renterKeyOf(e.UC).SignHash(finalHash)}
+			FinalRevisionSignature: signMaybe(renterKeyOf(e.UC), finalHash, bs == 1)}
 		if err := stream.WriteResponse(req); err != nil {
 			return err
 		}
@@ -402,7 +420,7 @@ func doRPCRenew3(tr *vhlib.Trace, e, k, f rv, rk int, h, rh uint64, s st) {
 		txn.SiacoinInputs = append(txn.SiacoinInputs, additions.SiacoinInputs...)
 		txn.SiacoinOutputs = append(txn.SiacoinOutputs, additions.SiacoinOutputs...)
 		init := rhp.InitialRevision(txn, hostKey.PublicKey().UnlockKey(), renterKey.PublicKey().UnlockKey())
-		sig := renterKey.SignHash(rhp.HashRevision(init))
+		sig := signMaybe(renterKey, rhp.HashRevision(init), bs == 2)
 		sigs := &rhp3.RPCRenewSignatures{RevisionSignature: types.TransactionSignature{ParentID: types.Hash256(init.ParentID),
 			CoveredFields: types.CoveredFields{FileContractRevisions: []uint64{0}}, Signature: sig[:]}}
 		if err := stream.WriteResponse(sigs); err != nil {
@@ -420,5 +438,5 @@ func doRPCRenew3(tr *vhlib.Trace, e, k, f rv, rk int, h, rh uint64, s st) {
 	if res == "accept" {
 		extra = rec.obs()
 	}
-	emit(tr, "rpcrenew3", fmt.Sprintf("%s %s %s rk=%d h=%d rh=%d %s", e.enc("e"), k.enc("k"), f.enc("f"), rk, h, rh, s.enc()), res, extra, err)
+	emit(tr, "rpcrenew3", fmt.Sprintf("%s %s %s rk=%d h=%d rh=%d bs=%d %s", e.enc("e"), k.enc("k"), f.enc("f"), rk, h, rh, bs, s.enc()), res, extra, err)
 }
